@@ -38,6 +38,12 @@ READINGS (the oracle is written under these; each is the reading under which the
 * Ends of constant loudness/tempo/articulation directions are derived data (`set_end_times`: the start of the next one
   of the same kind, else the end of the part); `abstract` does not compare them, the oracle checks that the imported
   score has exactly those derived ends.
+* Repeats, endings, barline fermatas: MusicXML has one `<repeat>`, one `<ending>` per `<barline>` and no nesting; the oracle
+  demands the same repeats / endings (start, end, number as text) and barline fermatas (time, location); a repeat, ending or
+  located fermata on a mid-measure change of divisions is outside the domain (do_barlines sees divisions segments, the location
+  it writes is relative to the segment).  Harmony (roman numerals, chord symbols with kind and bass) and cadence annotations are
+  compared as well ("an equal score"): a chord symbol without kind is one with the empty kind; a cadence of no known type
+  (`score.Cadence` keeps `None`) cannot be written at all and is outside the domain.
 * Byte fixpoint: `save(load(save(s))) == save(s)` is demanded when the notes of `s` carry voice numbers (and staff
   numbers where the part has several staves) and its tuplets have their four values (or nothing the importer would infer):
   the identifications "missing = 1", "missing tuplet content = what the note shows" are many-to-one and the file can only
@@ -604,7 +610,7 @@ def gen_extras(rng, d, nstaves):
                                                                 "bass": rng.choice([None, None, "E", "Bb"])}])
         else:
             # (the constructor keeps the first run of letters, upper case, when it is one of the six cadence names)
-            ex.append(["Cadence", rng.choice(inner), None, {"text": rng.choice(["PAC", "IAC", "HC", "pac", "hc:", "DC", "EC", "PC", "x iac"])}])
+            ex.append(["Cadence", rng.choice(inner), None, {"text": rng.choice(["PAC", "IAC", "HC", "pac", "hc:", "DC", "EC", "PC", "iac x", "miacx"])}])
     if r() < 0.01:
         ex.append(["Words", rng.choice(inner), None, {"text": rng.choice(PLAIN_WORDS)}])
 
